@@ -44,42 +44,102 @@ def r1(ctx):
 
 
 def r2(ctx, eff):
+    """The creator's constructor evaluated abstractly for force x (target is a path / an open connection) x (file exists or not):
+    which files are removed, when, and what is connected to."""
+    from ..absint import Interp, Sym, Opaque, Unsupported
     init = require_func(ctx, "create._DBCreator.__init__")
-    cfg = cfg_of(init)
-    unl = [c for c in calls_in(init.node) if ctx.proj.resolve_call(c, init)[1] in ("os.unlink", "os.remove")]
-    conn = [c for c in calls_in(init.node) if ctx.proj.resolve_call(c, init)[1] == "sqlite3.connect"]
-    ctx.require(conn, "_DBCreator.__init__ no longer connects with sqlite3.connect")
-    ctx.ob("R2", len(unl) == 1, "force removes the old file (one unlink)", func=init, sig="%d unlink(s) in the creator" % len(unl))
-    for u in unl:
-        g = sorted(("" if pol else "not ") + norm(t) for t, pol in guards_of(u, init.node))
-        ok = g == sorted(["force", "os.path.exists(dbfn)"])
-        ctx.ob("R2", ok, "the old database is removed only under force (and only if it exists)", node=u, func=init, sig="unlink guards %s" % g)
-        ok = len(u.args) == 1 and norm(u.args[0]) == "dbfn"
-        ctx.ob("R2", ok, "what is removed is the target database path", node=u, func=init, sig="unlink target %s" % norm(u.args[0]), nontrivial=False)
-        # the force block precedes the connection on every path
-        outer = None
-        from ..model import parents
-        for p in parents(u):
-            if p is init.node:
-                break
-            if isinstance(p, ast.If):
-                outer = p
-        a = cfg.node_for(outer if outer is not None else u)
-        ok = all(cfg.dominates(a.id, cfg.node_for(c).id) for c in conn)
-        ctx.ob("R2", ok, "the removal happens before the connection is opened", node=u, func=init,
-               sig="force block dominates sqlite3.connect" if ok else "connection can be opened before the force block")
-    for c in conn:
-        ok = len(c.args) >= 1 and norm(c.args[0]) == "dbfn"
-        ctx.ob("R2", ok, "the creator connects to the target path", node=c, func=init, sig="connect(%s)" % norm(c.args[0]), nontrivial=False)
+    ps = [p for p in init.params if p != "self"]
+    ctx.require("dbfn" in ps and "force" in ps, "creator constructor lost dbfn/force: %s" % ps)
+    n_conn = 0
+    for force in (False, True):
+        for kind, dbfn in (("path", Sym("dbfn", "str", True)), ("connection", Opaque("conn", "Connection"))):
+            it = Interp(ctx)
+            it.ext_summaries["os.path.exists"] = lambda i, pos, kw, node: (i.trace.events.append(("exists", pos[0], node)), Opaque("exists", "bool?"))[1]
+            it.summaries["iterators.DataIterator"] = lambda i, pos, kw, node: Opaque("ITER", "obj")
+            try:
+                # the other options are symbolic: a removal that depended on any of them would show up as a fork
+                a_ = {ps[0]: Sym("data", "any", True), "dbfn": dbfn, "force": force}
+                for p_ in ("merge_strategy", "id_spec", "verbose", "default_encoding", "_keep_tempfiles", "from_string", "checklines"):
+                    if p_ in ps:
+                        a_[p_] = Sym(p_, "any", None)
+                traces = it.run(init, a_, self_obj=Opaque("self", "obj"))
+            except Unsupported as e:
+                ctx.require(False, "creator constructor outside the analysable subset: %s" % e)
+            for t in traces:
+                ev = t.events
+                name_of = lambda e: getattr(e[1], "name", None) if e[0] == "call-opaque" else None
+                unl = [i for i, e in enumerate(ev) if name_of(e) in ("os.unlink", "os.remove", "shutil.rmtree", "os.rename", "shutil.move")]
+                conn = [i for i, e in enumerate(ev) if name_of(e) == "sqlite3.connect"]
+                exists = None
+                for d in t.decisions:
+                    if isinstance(d[0], Opaque) and d[0].kind == "bool?":
+                        exists = d[1]
+                label = "force=%s, target is a %s%s" % (force, kind, "" if exists is None else ", file %s" % ("exists" if exists else "absent"))
+                n_conn += len(conn)
+                if not force:
+                    ctx.ob("R2", not unl, "the old database is removed only under force", func=init, sig="%s: %d removal(s)" % (label, len(unl)))
+                else:
+                    if kind == "path" and exists:
+                        ctx.ob("R2", len(unl) == 1, "force removes the old file (one unlink)", func=init, sig="%s: %d removal(s)" % (label, len(unl)))
+                    elif kind == "path" and exists is False:
+                        ctx.ob("R2", not unl, "...and only if it exists", func=init, sig="%s: %d removal(s)" % (label, len(unl)), nontrivial=False)
+                    for i in unl:
+                        tgt = [getattr(x, "name", x) for x in ev[i][2]]
+                        ctx.ob("R2", tgt[:1] in (["dbfn"], ["conn"]) and name_of(ev[i]) in ("os.unlink", "os.remove"), "what is removed is the target database path", func=init,
+                               sig="%s: %s(%s)" % (label, name_of(ev[i]), tgt), nontrivial=False)
+                        ctx.ob("R2", all(i < j for j in conn), "the removal happens before the connection is opened", func=init,
+                               sig="force block precedes sqlite3.connect" if all(i < j for j in conn) else "connection can be opened before the force block")
+                if kind == "path":
+                    ok = len(conn) == 1 and [getattr(x, "name", x) for x in ev[conn[0]][2]][:1] == ["dbfn"]
+                    ctx.ob("R2", ok, "the creator connects to the target path", func=init, sig="%s: connect(%s)" % (label, [getattr(x, "name", x) for x in ev[conn[0]][2]] if conn else None),
+                           nontrivial=False)
+                else:
+                    sets_ = [e[3] for e in ev if e[0] == "setattr" and e[2] == "conn" and getattr(e[1], "name", None) == "self"]
+                    ok = not conn and bool(sets_) and getattr(sets_[-1], "name", None) == "conn"
+                    ctx.ob("R2", ok, "an open connection is used as it is", func=init, sig="%s: self.conn := %r" % (label, sets_[-1] if sets_ else None), nontrivial=False)
+    ctx.floor("R2", n_conn, 2, "connections opened by the creator")
     # no other removal of files in the import call graph, except temp files named by tempfile
     cd = require_func(ctx, "create.create_db")
+    own = {init.qual} | {g.qual for g in __import__("gffsa.util", fromlist=["closure"]).closure(ctx, init)}
     for e in eff.transitive(cd.qual):
-        if e[1] == "FS" and e[2] in ("unlink", "move") and e[0] != init.qual:
+        if e[1] == "FS" and e[2] in ("unlink", "move") and e[0] not in own:
             call = e[4]
             tgt = norm(call.args[0]) if call.args else "?"
             ok = "dbfn" not in tgt
             ctx.ob("R2", ok, "apart from the force block, nothing in an import removes or moves the database file (temp-file removal is C20's)",
                    node=call, func=ctx.proj.funcs[e[0]], sig="%s removes %s" % (e[0].split(".")[-1], tgt), nontrivial=False)
+
+
+_VERB_CACHE = {}
+
+
+def _evaluated_verbs(ctx, qual):
+    """Verbs of the statements a function executes, by abstract evaluation with symbolic arguments (for SQL text assembled
+    at run time); None when the function cannot be evaluated."""
+    from ..absint import Sym, Opaque, Unsupported
+    from ..builders import interp_for
+    key = (id(ctx.proj), qual)
+    if key in _VERB_CACHE:
+        return _VERB_CACHE[key]
+    f = ctx.proj.funcs.get(qual)
+    out = None
+    if f is not None:
+        d = f.param_defaults()
+        alts = [{p: Sym(p, "str", True) for p in f.params if p != "self" and d.get(p) is None and not p.startswith("*")},
+                {p: Sym(p, "str", True) for p in f.params if p != "self"}]
+        verbs = set()
+        try:
+            for a in alts:
+                a = {k: v for k, v in a.items() if k not in ("args", "kwargs")}
+                for t in interp_for(ctx).run(f, a, self_obj=Opaque("self", "obj")):
+                    for e in t.executes():
+                        text = e[1].render() if hasattr(e[1], "render") else str(e[1])
+                        verbs.add(S.parse(text).verb)
+            out = verbs
+        except (Unsupported, S.SQLError):
+            out = None
+    _VERB_CACHE[key] = out
+    return out
 
 
 def r3(ctx, eff):
@@ -96,7 +156,12 @@ def r3(ctx, eff):
             if kind == "SQL" and e[2] in WRITE_VERBS:
                 bad.append("%s on %s in %s" % (e[2], e[3], q))
             elif kind == "SQL?" and not q.endswith("FeatureDB._execute") and not q.endswith("FeatureDB.region"):
-                bad.append("unresolved SQL %r in %s" % (e[2], q))
+                verbs = _evaluated_verbs(ctx, q)
+                if verbs is None:
+                    bad.append("unresolved SQL %r in %s" % (e[2], q))
+                else:
+                    for v_ in sorted(verbs - {"SELECT"}):
+                        bad.append("%s (built at run time) in %s" % (v_, q))
             elif kind in ("COMMIT", "SCRIPT"):
                 bad.append("%s in %s" % (kind.lower(), q))
             elif kind == "FS":
